@@ -369,12 +369,20 @@ class ContractCtx:
 
     # ---------------------------------------------------------------- parameters
     def param(self, name, kind=None):
+        actual = name
+        if self.fi is not None:
+            a = self.fi.node.args
+            have = {q.arg for q in a.posonlyargs + a.args + a.kwonlyargs}
+            if name not in have:
+                from .program import rename_map
+
+                actual = rename_map(self.fi).get(name, name)  # a parameter that was only renamed
         if self.mode == "call":
-            if name not in self.bound:
-                raise EngineError(f"contract of {self.fi.dotted}: no parameter {name}")
-            return self.bound[name]
+            if actual not in self.bound:
+                raise OutOfReach(f"the contract of {self.fi.dotted} names a parameter '{name}' that the current function does not have")
+            return self.bound[actual]
         v = kind.fresh(self, name) if isinstance(kind, Kind) else kind
-        self.args[name] = v
+        self.args[actual] = v
         return v
 
     def fresh(self, kind, name):
